@@ -1,6 +1,6 @@
 (* Props/C06.v -- property theorems only *)
 From Coq Require Import ZArith List.
-From Falcon Require Import Base.Res IL.Const IL.Expr IL.Func Exec.Sem Lift.Lang Lift.LangSem Lift.Recover Lift.C06Check Lift.RecoverProofs Cfg.SOps Cfg.SProofs Cfg.MergeLift.
+From Falcon Require Import Base.Res IL.Const IL.Expr IL.Func Exec.Sem Lift.Lang Lift.LangSem Lift.Recover Lift.C06Check Lift.RecoverProofs Lift.RecoverLang Cfg.SOps Cfg.SProofs Cfg.MergeLift.
 Import ListNotations.
 
 (* 1. the validator run on every recovered function is sound: acceptance means the two graphs read exactly
@@ -138,3 +138,51 @@ Theorem recover_full_lang : forall tb fa manual f, recover tb fa manual = Ok f -
              forall w, lang (f_cfg f') w <-> lang (static_view (f_cfg f)) w.
 Proof. exact RecoverProofs.recover_full_lang. Qed.
 Print Assumptions recover_full_lang.
+
+(* 9. (round 3) the graph the model builds, edge by edge.  rspec prog roots fa lay g  says: g consists of one copy of
+      the instruction graph of each address reachable from the roots (in the order lay), the internal edges of the
+      copies, exactly one edge exit(x) -> entry(y) guarded c per machine-level link x -> y (successors with one
+      target joined), no two edges with the same (head, tail), entry = the entry block of fa's copy, exit unset:
+      g IS G_prog laid out in the order lay.  prog_ok: instruction graphs as the translators build them (blocks
+      numbered 0.., edges inside, none leaving the exit block, no duplicate edge). *)
+Theorem recover_graph_spec : forall prog tb fa f, tb_spec prog tb -> prog_ok prog -> recover tb fa [] = Ok f ->
+  exists lay, rspec prog [fa] fa lay (f_cfg f) /\ f_addr f = fa.
+Proof. exact RecoverLang.recover_graph_spec. Qed.
+Print Assumptions recover_graph_spec.
+
+(*    recover_struct, last clause: the entry block is (a re-indexed copy of) the entry block of the instruction graph
+      of the instruction at the function address -- same IL instructions, same addresses -- and the exit is unset *)
+Theorem recover_entry_block : forall prog tb fa f, tb_spec prog tb -> prog_ok prog -> recover tb fa [] = Ok f ->
+  exists b en eb, g_entry (f_cfg f) = Some (b_index b) /\ find_block (g_blocks (f_cfg f)) (b_index b) = Some b /\
+    g_entry (graph_at prog fa) = Some en /\ find_block (g_blocks (graph_at prog fa)) en = Some eb /\
+    b_instrs b = b_instrs eb /\ g_exit (f_cfg f) = None.
+Proof. exact RecoverLang.recover_entry_block. Qed.
+Print Assumptions recover_entry_block.
+
+(* 10. recover_lang_partial: without manual edges the recovered graph has exactly the language of G_prog *)
+Theorem recover_lang_partial : forall prog tb fa f, tb_spec prog tb -> prog_ok prog -> recover tb fa [] = Ok f ->
+  exists lay, rspec prog [fa] fa lay (f_cfg f) /\
+    forall gp, rspec prog [fa] fa lay gp -> forall w, lang (f_cfg f) w <-> lang gp w.
+Proof. exact RecoverLang.recover_lang_partial. Qed.
+Print Assumptions recover_lang_partial.
+
+(* 11. lang_eq_exec for Exec/Sem.v from language equality alone *)
+Theorem lang_eq_exec_sem_lang : forall f1 f2,
+  (forall w, lang (f_cfg f1) w <-> lang (f_cfg f2) w) -> det (f_cfg f1) = true -> det (f_cfg f2) = true ->
+  sem_wf (f_cfg f1) = true -> sem_wf (f_cfg f2) = true ->
+  forall st, (forall m1, exists m2, sem_obs m1 f1 st = sem_obs m2 f2 st) /\
+             (forall m2, exists m1, sem_obs m1 f1 st = sem_obs m2 f2 st).
+Proof. intros f1 f2 L D1 D2 W1 W2. apply LangSem.lang_eq_exec_sem_lang; try assumption; apply sem_wf_sound; assumption. Qed.
+Print Assumptions lang_eq_exec_sem_lang.
+
+(* 12. END TO END for the model of translate_function_extended including its final merge (7b + 8 + 10 + 11) *)
+Theorem recover_executes_like_machine_code : forall prog tb fa f,
+  tb_spec prog tb -> prog_ok prog -> recover tb fa [] = Ok f -> merge_ready (static_view (f_cfg f)) = true ->
+  exists f' lay, recover_full tb fa [] = Ok f' /\ f_addr f' = fa /\ rspec prog [fa] fa lay (f_cfg f) /\
+    forall gp, rspec prog [fa] fa lay (f_cfg gp) ->
+      (forall w, lang (f_cfg f') w <-> lang (f_cfg gp) w) /\
+      (det (f_cfg f') = true -> det (f_cfg gp) = true -> sem_wf (f_cfg f') = true -> sem_wf (f_cfg gp) = true ->
+       forall st, (forall m1, exists m2, sem_obs m1 f' st = sem_obs m2 gp st) /\
+                  (forall m2, exists m1, sem_obs m1 f' st = sem_obs m2 gp st)).
+Proof. exact RecoverLang.recover_executes_like_machine_code. Qed.
+Print Assumptions recover_executes_like_machine_code.
